@@ -19,6 +19,16 @@ theorem C17_search_exact (n : Nat) (ops : List Op) :
   have := runOps_ginv ops (init Defects.none n) (ginv_init _ _) (Or.inl ⟨rfl, rfl⟩)
   exact search_eq_matching (this.1 s hs) e he t
 
+/-- **C17 (search placed on a nested field), intended behaviour.** After any history, a search placed on the
+    sub-selection `kids` of `Doc` returns, under every parent, exactly the children whose current text contains the
+    word — the child's text, never the parent's. -/
+theorem C17_nested_search_exact (n : Nat) (ops : List Op) :
+    ∀ s, s ∈ (runOps (init Defects.none n) ops).1.sites →
+      s.indexOn 0 = true → ∀ t, nsearch s t = nmatching s t := by
+  intro s hs he t
+  have := runOps_ginv ops (init Defects.none n) (ginv_init _ _) (Or.inl ⟨rfl, rfl⟩)
+  exact nsearch_eq_nmatching (this.1 s hs) he t
+
 /-- **C17 (which entities): with `Defects.none`, "the engine indexes `e`" is "the model version in force
     declares an index for `e`"**, on every site after any history. -/
 theorem C17_flag_follows_model (n : Nat) (ops : List Op) :
@@ -49,6 +59,14 @@ theorem C17_partial (n : Nat) (ops : List Op) (hg : ∀ op, op ∈ ops → op.lo
   intro s hs e he t
   have := runOps_ginv ops (init Defects.asImplemented n) (ginv_init _ _) (Or.inr hg)
   exact search_eq_matching (this.1 s hs) e he t
+
+/-- the nested search under the same guard as `C17_partial` (references between local rows included) -/
+theorem C17_nested_partial (n : Nat) (ops : List Op) (hg : ∀ op, op ∈ ops → op.localOnly = true) :
+    ∀ s, s ∈ (runOps (init Defects.asImplemented n) ops).1.sites →
+      s.indexOn 0 = true → ∀ t, nsearch s t = nmatching s t := by
+  intro s hs he t
+  have := runOps_ginv ops (init Defects.asImplemented n) (ginv_init _ _) (Or.inr hg)
+  exact nsearch_eq_nmatching (this.1 s hs) he t
 
 /-! ### where the code as implemented breaks the full statement (each confirmed on the real engine) -/
 
@@ -110,6 +128,11 @@ example : (∀ op, op ∈ [Op.new 0 1 0 [5, 6], .new 0 2 0 [6], .upd 0 1 [7], .c
   · intro op h; simp only [List.mem_cons, List.not_mem_nil, or_false] at h
     rcases h with h | h | h | h | h | h <;> subst h <;> rfl
   · decide
+
+-- nested search: parent 1 ("w5") references children 2 ("w6") and 3 ("w5 w7"); the parent's own text is not what counts
+example : ((runOps (init Defects.asImplemented 1)
+      [.new 0 1 0 [5], .new 0 2 0 [6], .new 0 3 0 [5, 7], .link 0 1 2, .link 0 1 3, .link 0 2 1, .qn 0 5, .qn 0 6]).2.drop 6)
+    = [.nhits [(1, [3]), (2, [1])], .nhits [(1, [2])]] := by decide
 
 -- a history with everything, intended behaviour: deletion + slot reuse, ingestion both ways, a toggle
 example : probe (runOps (init Defects.none 2)
